@@ -220,6 +220,8 @@ BREAKING = [
     ('C13', 'sc3/seq/patterns/filterpatterns.py', "                inval = yield next - prev\n                prev = next", "                inval = yield next - prev", 'Pdiff keeps comparing with the first value'),
     ('C13', 'sc3/seq/patterns/filterpatterns.py', "                if trig:\n                    last_inval = stream.next(inval)", "                if not trig:\n                    last_inval = stream.next(inval)", 'Platch advances on a false trigger'),
     ('C13', 'sc3/seq/patterns/filterpatterns.py', "                    inval = yield (1 - c) * value", "                    inval = yield (1 + c) * value", 'Pprorate: the two parts do not add up'),
+    ('C07', 'sc3/base/_oscinterface.py', "            self._raw_score.extend(entry.msg)", "            self._raw_score.extend(entry.bndl)", 'score bytes taken from the wrong field of an entry'),
+    ('C07', 'sc3/base/_oscinterface.py', "        if _libsc3.main.current_tt is _libsc3.main.main_tt:\n            tailtime += _libsc3.main.current_tt._seconds", "        if _libsc3.main.current_tt is not _libsc3.main.main_tt:\n            tailtime += _libsc3.main.current_tt._seconds", 'score tail made absolute inside routines instead of outside'),
 ]
 
 
